@@ -100,7 +100,7 @@ fn rel_node(rng: &mut Rng, id: &str, r: &str, r2: &str) -> (String, String, bool
     let loc2 = *rng.pick(LOCS);
     let dir = *rng.pick(&["h", "H", "v", "V"]);
     // returns (kind, xml, uses_second_ref)
-    match rng.below(51) {
+    match rng.below(54) {
         0 => ("rel-dir-wh".into(), format!("<rect id=\"{id}\" xy=\"#{r}|{dir} {g}\" wh=\"{w} {h}\"/>"), false),
         1 => (
             "rel-dir-longsize".into(),
@@ -340,6 +340,22 @@ fn rel_node(rng: &mut Rng, id: &str, r: &str, r2: &str) -> (String, String, bool
             "rel-reuse-cx".into(),
             format!("<reuse id=\"{id}\" href=\"#tpl\" cx=\"#{r}~cx\" cy=\"{{{{#{r2}~y2 + {g}}}}}\"/>"),
             true,
+        ),
+        50 => (
+            // content of a never-rendered container refers to another node too
+            "rel-with-points-in-defs".into(),
+            format!("<defs><polyline id=\"{id}d\" points=\"0 0 #{r}@{loc} {w} {h}\"/></defs><rect id=\"{id}\" xy=\"#{r}|{dir} {g}\" wh=\"{w} {h}\"/>"),
+            false,
+        ),
+        51 => (
+            "rel-with-points-in-marker".into(),
+            format!("<marker id=\"{id}m\"><polygon id=\"{id}d\" points=\"#{r}@{loc2} 1 1 #{r2}@{loc}\"/></marker><circle id=\"{id}\" cxy=\"#{r}@{loc}\" r=\"{w}\"/>"),
+            true,
+        ),
+        52 => (
+            "rel-with-points-in-pattern".into(),
+            format!("<pattern id=\"{id}m\"><polyline id=\"{id}d\" points=\"#{r}~x2 #{r}~y2 3 4\"/></pattern><mask id=\"{id}k\"><polyline id=\"{id}e\" points=\"1 2 #{r}@{loc}\"/></mask><rect id=\"{id}\" xy=\"#{r}@{loc}\" wh=\"{w} {h}\"/>"),
+            false,
         ),
         _ => (
             "rel-reuse".into(),
@@ -658,6 +674,25 @@ impl Engine for C10 {
                 kind: "rel-dir-wh".into(),
                 xml: format!("<rect id=\"n{}\" xy=\"#n{}|h 3\" wh=\"2 5\"/>", base + 2, base + 1),
                 deps: vec![base + 1],
+            });
+        }
+        // one scenario in four has an inert sibling (content svgdx has nothing to do with): it
+        // may come first, last or anywhere between like any other sibling
+        if w.chance(1, 4) {
+            let base = nodes.len();
+            let xml = match w.below(6) {
+                0 => format!("<desc id=\"inert{base}\" xmlns=\"http://www.w3.org/1999/xhtml\">a <b>description</b></desc>"),
+                1 => format!("<title id=\"inert{base}\">t</title>"),
+                2 => format!("<metadata id=\"inert{base}\"><r xmlns=\"urn:example:rdf\"><d about=\"x\"/></r></metadata>"),
+                3 => "<!-- a comment -->".to_string(),
+                4 => "<style>.q { fill: red; }</style>".to_string(),
+                _ => format!("<foreignObject id=\"inert{base}\" x=\"0\" y=\"0\" width=\"5\" height=\"5\"><div xmlns=\"http://www.w3.org/1999/xhtml\">h</div></foreignObject>"),
+            };
+            nodes.push(NodeSpec {
+                id: format!("inert{base}"),
+                kind: "aux-inert".into(),
+                xml,
+                deps: vec![],
             });
         }
         let nn = nodes.len();
